@@ -144,6 +144,22 @@ let run (st : stream) (b : Buffer.t) : unit =
              desc := String.concat "," (List.map zs ts);
              lift (recompute_transitions_for nw !s (if ts = [] then None else Some ts)) (fun s2 -> OOk (s2, ""))
            | "consistent_end" -> lift (reassign_end_depots_consistent nw !s) (fun s2 -> OOk (s2, ""))
+           | "movetrans" ->
+             let kv = next_int st in let kc = next_int st in
+             (match pick real kv with
+              | None -> OSkip
+              | Some v ->
+                (match vget v !s.s_vehicles with
+                 | Some ty ->
+                   (match zget ty !s.s_trans with
+                    | Some tr ->
+                      let k = kc mod (max (List.length tr.tr_cycles) 1) in
+                      desc := Printf.sprintf "%s %d" (vid v) k;
+                      lift (move_vehicle nw tr v (nat_of_int k) (tfn nw !s.s_tours)) (fun moved ->
+                        let trans = List.map (fun (t, x) -> if int_of_z t = int_of_z ty then (t, moved) else (t, x)) !s.s_trans in
+                        OOk (set_next_day_transitions !s trans, ""))
+                    | None -> OPanic)
+                 | None -> OPanic))
            | k -> failwith ("unknown op " ^ k) in
          (match outcome with
           | OPanic -> pr "OP %d %s %s -> PANIC\n" n kind !desc
